@@ -491,6 +491,14 @@ func init() {
 		ref := x.newRef(fr)
 		r.Back = Backing{Heap: true, Ref: ref}
 		x.assume(st, And(Eq(r.Off, IntLit(0)), Implies(Gt(sLen(tOf(a[1])), IntLit(0)), Ge(r.Len, IntLit(1)))))
+		if sep, ok := x.constString(tOf(a[1])); ok && len(sep) == 1 {
+			// no element contains the (one-byte) separator
+			x.vc.ctr++
+			i, k := Term{fmt.Sprintf("si!q%d", x.vc.ctr), SInt}, Term{fmt.Sprintf("sk!q%d", x.vc.ctr), SInt}
+			el := Select(Select(x.heapGet(st, "elems|Str", arrOf(arrOf(SStr))), ref), i)
+			x.assume(st, Term{fmt.Sprintf("(forall ((%s Int) (%s Int)) (=> (and (<= 0 %s) (< %s %s) (<= 0 %s) (< %s (sLen %s))) (not (= (sAt %s %s) %d))))",
+				i.S, k.S, i.S, i.S, r.Len.S, k.S, k.S, el.S, el.S, k.S, int(sep[0])), SBool})
+		}
 		return r, true
 	})
 	libFrames["strings.Split"] = map[string]Sort{}
